@@ -30,6 +30,11 @@ pub enum Point {
     Lock { addr: usize, write: bool, what: LockKind },
     /// about to perform a read-modify-write on the tree's reference count
     Rmw { site: RmwSite },
+    /// about to *try* to acquire the lock at `addr` without blocking (never waits: always enabled)
+    TryLock { addr: usize, write: bool, what: LockKind },
+    /// inside the critical section of the lock at `addr`, right after acquiring it: another thread may run
+    /// here (it cannot take a conflicting lock, but it can try to, and it can do anything that needs no lock)
+    InSection { addr: usize, write: bool, what: LockKind },
 }
 
 #[derive(Debug, Clone, Copy, PartialEq, Eq)]
@@ -158,7 +163,9 @@ impl<T> RwLock<T> {
         point(Point::Lock { addr, write: false, what });
         let guard = self.inner.read();
         note(Note::Acquired { addr, write: false, what });
-        RwLockReadGuard { addr, what, guard }
+        let guard = RwLockReadGuard { addr, what, guard };
+        point(Point::InSection { addr, write: false, what });
+        guard
     }
 
     pub fn write(&self) -> RwLockWriteGuard<'_, T> {
@@ -166,7 +173,30 @@ impl<T> RwLock<T> {
         point(Point::Lock { addr, write: true, what });
         let guard = self.inner.write();
         note(Note::Acquired { addr, write: true, what });
-        RwLockWriteGuard { addr, what, guard }
+        let guard = RwLockWriteGuard { addr, what, guard };
+        point(Point::InSection { addr, write: true, what });
+        guard
+    }
+
+    /// the non-blocking forms of `parking_lot::RwLock`, so that code that starts using them is seen too
+    pub fn try_read(&self) -> Option<RwLockReadGuard<'_, T>> {
+        let (addr, what) = (self as *const _ as usize, Self::what());
+        point(Point::TryLock { addr, write: false, what });
+        let guard = self.inner.try_read()?;
+        note(Note::Acquired { addr, write: false, what });
+        let guard = RwLockReadGuard { addr, what, guard };
+        point(Point::InSection { addr, write: false, what });
+        Some(guard)
+    }
+
+    pub fn try_write(&self) -> Option<RwLockWriteGuard<'_, T>> {
+        let (addr, what) = (self as *const _ as usize, Self::what());
+        point(Point::TryLock { addr, write: true, what });
+        let guard = self.inner.try_write()?;
+        note(Note::Acquired { addr, write: true, what });
+        let guard = RwLockWriteGuard { addr, what, guard };
+        point(Point::InSection { addr, write: true, what });
+        Some(guard)
     }
 }
 
